@@ -81,6 +81,42 @@ def eval_formats(args):
     return {'mismatch': mism, 'case': case0, 'expected': {'mem': scen['mem'], 'objs': scen['objs']}}
 
 
+def eval_corpus_formats(args):
+    """A repository program in one format: the decoded output must equal the memory map of the unmuted bytes recorded by the p2 hook
+    events (which Trace_Asm.tla ties to the image)."""
+    import shutil
+    import tempfile
+    from harness import traces
+    cfg, src, inc, fmt = args
+    runner.import_repo()
+    from bespokeasm.assembler.engine import Assembler
+    d = tempfile.mkdtemp(prefix='vc16_', dir=runner.SCRATCH_ROOT)
+    try:
+        out, pp = os.path.join(d, 'o.bin'), os.path.join(d, 'o.txt')
+        status, msg, ev, img = traces.record(lambda: Assembler(src, cfg, True, out, 0, None, 0, True, fmt, pp, 0, [inc], []).assemble_bytecode(), out)
+        if status != 'ok':
+            return f'{fmt}: repository program no longer assembles: {status} {(msg or "")[:100]}'
+        mem = {}
+        for e in ev:
+            if e['ev'] == 'p2' and e['has_bytes'] and not e['muted']:
+                for i, b in enumerate(e['bytes']):
+                    mem[e['addr'] + i] = b
+        text = open(pp).read()
+        try:
+            got = formats.decode_listing(parse_listing(text)) if fmt == 'listing' else DEC[fmt](text)
+        except formats.FormatError as ex:
+            return f'{fmt}: not decodable: {ex}'
+        if got != mem:
+            extra = {a: got[a] for a in got if got.get(a) != mem.get(a)}
+            missing = {a: mem[a] for a in mem if a not in got}
+            return f'{fmt}: decodes to a different memory map: wrong/extra {dict(list(extra.items())[:5])} missing {dict(list(missing.items())[:5])} ({len(extra)}/{len(missing)})'
+        if img is not None and any(img[a] != b for a, b in mem.items() if a < len(img)):
+            return f'{fmt}: image differs from the recorded memory map'
+        return None
+    finally:
+        shutil.rmtree(d, ignore_errors=True)
+
+
 def run(chk):
     chk.rule = ('TLC enumerates programs over AlphaC16 (sparse maps via origins / zone / alignment, muted regions, zero-length '
                 'fills and zerountil, a 7-byte fill longer than the listing row, includes, a predefined data block) for address '
@@ -113,3 +149,13 @@ def run(chk):
                           r['case'], r['expected'], r['mismatch'])
         for s in scs[len(scs) // 2: len(scs) // 2 + 1]:
             chk.sample({'instance': tag, 'program': [asmcheck._fmt(l) for l in s['prog']], 'mem': s['mem']})
+    # repository programs under their real ISAs (sparse 16-bit maps, long data lines, includes, muted zero-page variables)
+    from harness import corpus
+    jobs = [(c, s_, i, f) for (c, s_, i) in corpus.corpus_programs() if chk.tier != 'quick' or os.path.getsize(s_) < 12000 for f in FORMATS]
+    outs = runner.pmap(eval_corpus_formats, jobs)
+    for (c, s_, i, f), r in zip(jobs, outs):
+        chk.traces += 1
+        chk.nontriv(('corpus', s_, f))
+        if r is not None:
+            chk.violation(f'{os.path.relpath(s_, corpus.REPO)}: {r}', {'path': s_, 'format': f}, None, r, {'kind': 'corpus-format'})
+    chk.notes['corpus_format_runs'] = len(jobs)
